@@ -338,6 +338,7 @@ Definition parse_any (s : bytes) : anyc :=
   match s with
   | 117 :: r => AUpd (unhex r)
   | 114 :: r => AResc (unhex r)
+  | 97 :: r => AArt (unhex r)
   | _ => AStop
   end.
 
